@@ -227,8 +227,26 @@ def run(ck, facts):
             inner = sym_peel(v[2][0]) if good else None
             good = good and isinstance(inner, tuple) and inner[0] == "call" and str(inner[1]).endswith("core::str::converts::from_utf8")
             inner2 = sym_peel(inner[2][0]) if good else None
-            good = good and isinstance(inner2, tuple) and inner2[0] == "call" and str(inner2[1]).endswith("slice::raw::from_raw_parts") \
-                and sym_is_arg(inner2[2][0], 1) and sym_is_arg(inner2[2][1], 2)
+
+            def is_view(x):
+                return isinstance(x, tuple) and x[0] == "call" and str(x[1]).endswith("slice::raw::from_raw_parts") and sym_is_arg(x[2][0], 1) and sym_is_arg(x[2][1], 2)
+            if good and isinstance(inner2, tuple) and inner2[0] == "phi":
+                # `let bytes = if ptr.is_null() { &[] } else { from_raw_parts(ptr, size) }`: every reaching definition is the view itself
+                # (its null guard is (a) above) or the empty array on the null edge
+                for abb, akind, anode in m.defs.get(inner2[1], []):
+                    if akind == "call":
+                        good = good and is_view(("call", C.mir_callee(anode), tuple(m.sym_op(z) for z in anode["args"])))
+                        continue
+                    rv = anode["rv"]
+                    src = rv.get("op", {}) if rv["k"] in ("cast", "use") else {}
+                    lcl = (src.get("move") or src.get("copy") or {}).get("l")
+                    ty = m.mir["locals"][lcl]["ty"] if lcl is not None else ""
+                    if re.match(r"^&('\w+ )?\[u8; 0\]$", ty):
+                        good = good and guarded_by(m, abb, is_arg1, want_null=True)
+                    else:
+                        good = good and is_view(sym_peel(m.sym_rv(rv)))
+            else:
+                good = good and is_view(inner2)
             kinds.append("validator" if good else "other-call:%s" % sym_show(v)[:80])
             ok_shape &= good
     ok_shape &= kinds.count("validator") == 1
@@ -271,11 +289,13 @@ def run(ck, facts):
     ff = rt.fn("diplomat_runtime::diplomat_free")
     for f, sz, al, fn_sfx in ((fa, 1, 2, "alloc::alloc::alloc"), (ff, 2, 3, "alloc::alloc::dealloc")):
         m = MirFn(f)
-        lay = [(bb, t) for bb, t in m.calls() if (C.mir_callee(t) or "").endswith("Layout::from_size_align")]
-        ok = len(lay) == 1
-        if ok:
-            a = [m.sym_op(x) for x in lay[0][1]["args"]]
-            ok = sym_is_arg(a[0], sz) and sym_is_arg(a[1], al)
+        # the Layout handed to the allocator, same-crate helpers looked through
+        fin0 = [(bb, t) for bb, t in m.calls() if (C.mir_callee(t) or "").endswith(fn_sfx)]
+        lay = []
+        for bb, t in fin0:
+            term = C.sym_expand(rt, m.sym_op(t["args"][-1]))
+            lay += [x for x in sym_walk(term) if x[0] == "call" and str(x[1]).endswith("Layout::from_size_align")]
+        ok = len(lay) == 1 and sym_is_arg(lay[0][2][0], sz) and sym_is_arg(lay[0][2][1], al)
         ck.expect(ok, "R4", f["name"] + "/layout-args", "Layout::from_size_align(size, align)", "Layout is built from the wrong parameters (size/align swapped or different)", C.loc(f))
         fin = [(bb, t) for bb, t in m.calls() if (C.mir_callee(t) or "").endswith(fn_sfx)]
         ok2 = len(fin) == 1
